@@ -48,8 +48,8 @@ def conv_events(ev):
         elif k == 'exit':
             c = e.get('code', 0)
             e = {'e': 'exit', 'code': c if isinstance(c, int) and c >= 0 else 99}
-        elif k in ('rows', 'ddl'):
-            continue        # ('ddl': schema statements - crash points only)
+        elif k in ('rows', 'ddl', 'fatal'):
+            continue        # ('ddl': schema statements - crash points only; 'fatal': where the fatal error was raised)
         out.append(e)
     return out
 
@@ -100,8 +100,9 @@ def _exec_plain(scn, order_prefix):
         shutil.rmtree(d, ignore_errors=True)
 
 
-def _exec_crash(scn, crash_at):
-    """Run 1 in a forked child that dies at event number crash_at; run 2 (same command, same database)."""
+def _exec_crash(scn, crash_at, kind='kill'):
+    """Run 1 in a forked child that dies at event number crash_at - killed, or (kind 'fatal') of a fatal local error
+    reported by the table operation logged there; run 2 (same command, same database)."""
     from drivers.crawl_exec import CrawlRun, read_rows
     d = tempfile.mkdtemp(prefix='crash_')
     try:
@@ -111,6 +112,7 @@ def _exec_crash(scn, crash_at):
         if pid == 0:
             try:
                 r = _new_run(scn, db, d, trace_file=tf, crash_at=crash_at, run_no=1)
+                r.crash_kind = kind
                 r.max_requests = max(400, 3 * len(scn['urls']))
                 r.stmt_points = bool(scn.get('stmt_points'))
                 r.execute()
@@ -153,7 +155,7 @@ def job(j):
         os.dup2(devnull, 2)     # wpull logs fetch errors to stderr even with -q
         if j['mode'] == 'plain':
             return _exec_plain(j['scn'], j.get('order', []))
-        return _exec_crash(j['scn'], j['crash_at'])
+        return _exec_crash(j['scn'], j['crash_at'], j.get('kind', 'kill'))
     except BaseException as e:
         return dict(error='%s: %s\n%s' % (type(e).__name__, e, traceback.format_exc()))
 
@@ -252,7 +254,12 @@ def run(chk):
                 # only the start-up phase is of interest: every event up to (and just after) the first request
                 first = next((i for i, e in enumerate(base['ev']) if e['e'] == 'req'), npoints - 1)
                 npoints = min(npoints, first + 3)
-            outs = run_jobs([dict(mode='crash', scn=scn, crash_at=k) for k in range(1, npoints + 1)])
+            jobs = [dict(mode='crash', scn=scn, crash_at=k) for k in range(1, npoints + 1)]
+            if scn.get('fatal') and not scn.get('ftp'):
+                # the same points once more, the process dying of a fatal local error there (table operations only)
+                jobs += [dict(mode='crash', scn=scn, crash_at=k, kind='fatal') for k in range(1, npoints + 1)
+                         if base['ev'][k - 1]['e'] == 'tx']
+            outs = run_jobs(jobs)
             n = 0
             for o in outs:
                 if 'error' in o:
